@@ -134,6 +134,19 @@ def run_property(prop, tier, seed, replay=None, only_case=None):
                 else:
                     discharged += 1
                 thm_list.append(name)
+    # thorough tier: the property's compiled modules (and the model, bridge and mathematics they rest on) are
+    # re-checked by leanchecker, the toolchain's independent replay of .olean files through the kernel
+    rechecked = []
+    if tier == "thorough" and lean_modules and not build_broken:
+        lib = os.path.join(VERIF, "lean", "GT")
+        deps = sorted("GT." + os.path.relpath(os.path.join(r, f), lib)[:-5].replace(os.sep, ".")
+                      for sub in ("Model", "Bridge", "Math") for r, _, fs in os.walk(os.path.join(lib, sub)) for f in fs
+                      if f.endswith(".lean"))
+        rechecked = list(lean_modules) + deps
+        rc = subprocess.run(["lake", "env", "leanchecker"] + rechecked, cwd=os.path.join(VERIF, "lean"),
+                            capture_output=True, text=True)
+        if rc.returncode != 0:
+            raise Infra("leanchecker rejected compiled modules:\n" + (rc.stdout + rc.stderr)[-3000:])
     hits = grep_forbidden(lean_sources())
     if hits or bad_axioms:
         raise Infra(f"audit failed: forbidden constructs {hits[:5]} / axioms {bad_axioms[:5]}")
@@ -271,6 +284,7 @@ def run_property(prop, tier, seed, replay=None, only_case=None):
                           "hand-written model lean/GT/Model/* tied to /repo by the correspondence run below (sampled)",
                           "Backend.Spec hypothesis for JAX/LAPACK primitives", "harness/*.py, NumPy/SciPy oracles"],
             theorems=thm_list,
+            leanchecker_modules=rechecked,
             evaluations=n_compared,
             distinct_nontrivial=nontrivial,
             rule="correspondence: every instruction of every generated program is executed on the real library and on the "
@@ -292,8 +306,9 @@ def run_property(prop, tier, seed, replay=None, only_case=None):
     if extra:
         ev["coverage"].update(extra())
     if not os.environ.get("GT_DEBUG_NO_PROOFS"):    # development runs never write evidence
-        os.makedirs(os.path.join(VERIF, "evidence"), exist_ok=True)
-        json.dump(ev, open(os.path.join(VERIF, "evidence", f"{prop}.json"), "w"), indent=1, default=str)
+        evdir = os.environ.get("GT_EVIDENCE_DIR") or os.path.join(VERIF, "evidence")   # dev tools redirect; default is the interface path
+        os.makedirs(evdir, exist_ok=True)
+        json.dump(ev, open(os.path.join(evdir, f"{prop}.json"), "w"), indent=1, default=str)
     for p in printed:
         print(p)
     for n in out["notes"]:
